@@ -112,6 +112,18 @@ def _sel_entries(s, vec):
     return None
 
 
+def _vsel_entries(s, vec):
+    """like _sel_entries for a Result / Option local that is a different VARIANT on two joining paths (the Ok / Err exits of an
+    inlined `ensure(cond, err)` before the caller's `?` separates them again): the length facts per variant"""
+    if s is None:
+        return None
+    if s[0] == "variant":
+        return [(s[1], {k: v for k, v in vec.items() if v != (0, INF, None)})]
+    if s[0] == "vsel":
+        return [(val, dict(items)) for val, items in s[1]]
+    return None
+
+
 def _join_vecs(a, b):
     return {k: join_iv(a[k], b[k]) for k in set(a) & set(b)}
 
@@ -119,7 +131,7 @@ def _join_vecs(a, b):
 def _mentions(s, key):
     if not isinstance(s, tuple):
         return False
-    if s[0] == "sel":
+    if s[0] in ("sel", "vsel"):
         return any(k == key for _, items in s[1] for k, _ in items)
     return any(x == key or _mentions(x, key) for x in s[1:])
 
@@ -213,6 +225,14 @@ class State:
                 for val, vv in ea + eb:
                     merged[val] = _join_vecs(merged[val], vv) if val in merged else vv
                 sym[l] = ("sel", tuple(sorted((val, tuple(sorted(vv.items()))) for val, vv in merged.items())))
+                continue
+            va, vb = _vsel_entries(a, self.vec), _vsel_entries(b, other.vec)
+            if va is not None and vb is not None:
+                merged = {}
+                for val, vv in va + vb:
+                    merged[val] = _join_vecs(merged[val], vv) if val in merged else vv
+                if len(merged) > 1:
+                    sym[l] = ("vsel", tuple(sorted((val, tuple(sorted(vv.items(), key=lambda kv: kv[0]))) for val, vv in merged.items())))
         return State(vec, sym, self.dirty | other.dirty)
 
     def __eq__(self, o):
@@ -445,6 +465,9 @@ class VecLen:
             v = st.sym.get(x)
             if v and v[0] == "variant":
                 st.sym[dl] = ("variant", {"Ok": "Continue", "Some": "Continue", "Err": "Break", "None": "Break"}.get(v[1], "?"))
+            elif v and v[0] == "vsel":
+                m = {"Ok": "Continue", "Some": "Continue", "Err": "Break", "None": "Break"}
+                st.sym[dl] = ("vsel", tuple(sorted((m.get(val, "?"), items) for val, items in v[1])))
             for key in list(st.vec):
                 for ok in ("Ok", "Some"):
                     pre = "(_%d as %s)" % (x, ok)
@@ -723,6 +746,11 @@ class VecLen:
                     names = self.fn.prog.enums.get(sy[2]) or {}
                     if known and known[0] == "variant" and v in names and names[v] != known[1]:
                         feasible = False     # the local is known to be another variant on every path here
+                    elif known and known[0] == "vsel" and v in names:
+                        # the facts that held on the paths on which the local became this variant
+                        feasible = _apply_sel(s2, known, names[v])
+                        if feasible:
+                            s2.sym[sy[1]] = ("variant", names[v])
                 elif sy and sy[0] in ("memb", "nmemb") and t["ty"] == "bool":
                     feasible = _apply_memb(s2, sy, bool(v) == (sy[0] == "memb"))
                 elif sy and sy[0] == "sel" and t["ty"] == "bool":
